@@ -512,3 +512,13 @@ Definition worker_fresh (th : thread) : bool :=
 Definition covert_checked_before (tr : list event) : Prop :=
   (forall k o r tr1 tr2, tr = tr1 ++ ESeen k o r :: tr2 -> r = true /\ In (ECov o) tr2) /\
   (forall k o r tr1 tr2, tr = tr1 ++ EAnn k o r :: tr2 -> r = true /\ In (ECov o) tr2).
+
+(* an upper bound on the number of own steps a thread still takes (sweeper: see C09_no_panic_in_sweep) *)
+Definition own_steps_left (th : thread) : nat :=
+  match th with
+  | TWorker _ W0 => 5 | TWorker _ W1 => 4 | TWorker _ W2 => 3 | TWorker _ W3 => 2 | TWorker _ W4 => 1
+  | TWorker _ WEnd => 0
+  | THandler _ H0 => 2 | THandler _ (H1 _) => 1 | THandler _ HEnd => 0
+  | TReload _ false => 1 | TReload _ true => 0
+  | _ => 0
+  end.
